@@ -13,6 +13,7 @@ import ast
 from ..core import AnalysisError
 from ..core import RuleResult
 from ..core import norm
+from ..model import ancestors
 from ..flow import ANY
 from ..flow import NORMAL
 from ..flow import RAISE
@@ -841,7 +842,88 @@ def _inl(rule):
 
 
 INLINED_VIEW = True
-RULES_PLAIN = [rule_balance, rule_ownership]
+def _guarded_positive(node, name):
+    """Is `node` inside the body of an `if <name>` / `if <name> > 0` /
+    `if <name> >= 1` test?"""
+    child = node
+    for anc in ancestors(node):
+        if isinstance(anc, (ast.FunctionDef, ast.AsyncFunctionDef)):
+            break
+        if isinstance(anc, ast.If) and any(
+                child is x or any(child is y for y in ast.walk(x))
+                for x in anc.body):
+            t = anc.test
+            tests = t.values if isinstance(t, ast.BoolOp) and isinstance(
+                t.op, ast.And) else [t]
+            for c in tests:
+                if norm(c) == name:
+                    return True
+                if isinstance(c, ast.Compare) and len(c.ops) == 1 and \
+                        norm(c.left) == name and isinstance(
+                            c.comparators[0], ast.Constant):
+                    v = c.comparators[0].value
+                    if (isinstance(c.ops[0], ast.Gt) and v >= 0) or (
+                            isinstance(c.ops[0], ast.GtE) and v >= 1) or (
+                            isinstance(c.ops[0], ast.NotEq) and v == 0):
+                        return True
+        child = anc
+    return False
+
+
+def rule_pop_zero(model):
+    r = RuleResult('C08.R4', 'popping zero entries removes nothing: either '
+                   'TemplateDict._pop(n) removes exactly n entries for '
+                   'n = 0 too, or no caller can pass 0 (a template that '
+                   'pushed nothing and leaves through the recursion guard '
+                   'must not empty the caller\'s namespace)')
+    fi = model.func('_DocumentTemplate', 'TemplateDict._pop')
+    ps = fi.params()
+    if len(ps) < 2:
+        raise AnalysisError('TemplateDict._pop signature changed')
+    cnt = ps[1]
+    unsafe = []
+    for n in own_nodes(fi.node):
+        if isinstance(n, ast.Slice):
+            for bound in (n.lower, n.upper):
+                if isinstance(bound, ast.UnaryOp) and isinstance(
+                        bound.op, ast.USub) and cnt in {
+                            x.id for x in ast.walk(bound.operand)
+                            if isinstance(x, ast.Name)}:
+                    if not _guarded_positive(n, cnt):
+                        unsafe.append(n)
+    r.instance(fi.where, 'removal of the last n entries',
+               'exact for n = 0' if not unsafe else
+               'NEGATIVE SLICE: n = 0 selects the whole stack')
+    ncalls = 0
+    for g in model.all_funcs():
+        for c in own_nodes(g.node):
+            if isinstance(c, ast.Call) and isinstance(
+                    c.func, ast.Attribute) and c.func.attr == '_pop' and \
+                    g is not fi:
+                ncalls += 1
+                if not unsafe:
+                    continue
+                a = c.args[0] if c.args else None
+                ok = a is None or (isinstance(a, ast.Constant) and
+                                   isinstance(a.value, int)
+                                   and a.value >= 1) or (
+                    isinstance(a, ast.Name) and
+                    _guarded_positive(c, a.id))
+                r.instance(g.where, c, 'count >= 1' if ok
+                           else 'COUNT MAY BE 0')
+                if not ok:
+                    r.finding(g.where, c, f'`{norm(a)}` may be 0 here and '
+                              '_pop(0) removes the whole namespace stack '
+                              '(its negative slice selects everything): a '
+                              'caller that catches the exception continues '
+                              'with an empty namespace', node=c, ctx=g)
+    if ncalls < 8:
+        raise AnalysisError(f'C08.R4: only {ncalls} _pop call sites found')
+    r.floor = 1
+    return r
+
+
+RULES_PLAIN = [rule_balance, rule_ownership, rule_pop_zero]
 RULES = [_inl(r_) for r_ in RULES_PLAIN] if INLINED_VIEW else RULES_PLAIN
 EXPLANATION = (
     'Structured path-sensitive abstract interpretation (stack depth, '
